@@ -4,6 +4,7 @@ package pubsub
 
 import (
 	pb "github.com/libp2p/go-libp2p-pubsub/pb"
+	"github.com/libp2p/go-libp2p/core/peer"
 )
 
 // ---- C19: the event trace is a faithful account ---------------------------------------------------
@@ -28,6 +29,156 @@ func vpH_C19_joinleave() {
 			}
 		}
 		vpAssert(joins == 0 && leaves == 1, "Leave records exactly one LEAVE event and no JOIN ("+router+")")
+	}
+	vpCover(true, "ran")
+}
+
+// mesh_rebuild: from a state in which the replayed trace equals the router state, ONE real gossipsub handler runs with
+// the recording tracer attached; applying the recorded stream-opened/closed, GRAFT, PRUNE, JOIN and LEAVE events as
+// set operations reproduces the router's peer set and the topic's mesh.
+func vpMeshRebuild(handler, P int) {
+	vpOpt("unwind", 10)
+	w := vpNewWorld(vpWorldCfg{P: P, params: vpSmallParams(), scoring: true, tracer: true, noFanout: true})
+	gs, ps := w.n.gs, w.n.ps
+	// ghost = router state before the step
+	gPeers := map[peer.ID]bool{}
+	gMesh := map[peer.ID]bool{}
+	gJoined := w.joined
+	for i, p := range w.peers {
+		gPeers[p] = w.up[i]
+		gMesh[p] = w.mesh[i]
+	}
+	i := vpInt("peer", 0, w.P-1)
+	p := w.peers[i]
+	switch handler { // (one harness per handler: merging six different handlers in one run multiplies the formula)
+	case 0:
+		vpAssume(w.up[i])
+		gs.handleGraft(p, vpGraftCtl(vpT0))
+	case 1:
+		topic := vpT0
+		gs.handlePrune(p, &pb.ControlMessage{Prune: []*pb.ControlPrune{{TopicID: &topic}}})
+	case 2:
+		gs.Join(vpT0)
+	case 3:
+		gs.Leave(vpT0)
+	case 4:
+		gs.heartbeat()
+	case 5:
+		vpAssume(w.up[i])
+		w.n.h.net.connected[p] = false
+		ps.peerDeadPend[p] = struct{}{}
+		ps.handleDeadPeers()
+	}
+	joins, leaves := 0, 0
+	for _, ev := range w.n.tr.evts {
+		switch ev.typ {
+		case pb.TraceEvent_ON_NEW_OUTBOUND_STREAM:
+			gPeers[ev.peer] = true
+		case pb.TraceEvent_ON_CLOSED_OUTBOUND_STREAM:
+			gPeers[ev.peer] = false
+			gMesh[ev.peer] = false
+		case pb.TraceEvent_JOIN:
+			if ev.topic == vpT0 {
+				gJoined = true
+				joins++
+			}
+		case pb.TraceEvent_LEAVE:
+			if ev.topic == vpT0 {
+				gJoined = false
+				leaves++
+				for _, q := range w.peers {
+					gMesh[q] = false
+				}
+			}
+		case pb.TraceEvent_GRAFT:
+			if ev.topic == vpT0 {
+				gMesh[ev.peer] = true
+			}
+		case pb.TraceEvent_PRUNE:
+			if ev.topic == vpT0 {
+				gMesh[ev.peer] = false
+			}
+		}
+	}
+	_, joinedNow := gs.mesh[vpT0]
+	vpAssert(gJoined == joinedNow && joins+leaves <= 1, "JOIN and LEAVE events match the actual joins and leaves")
+	for j, q := range w.peers {
+		_, inPeers := gs.peers[q]
+		vpAssert(gPeers[q] == inPeers, "replaying the stream-opened/closed events rebuilds the router's peer set")
+		vpAssert(gMesh[q] == w.inMeshNow(j), "replaying GRAFT, PRUNE, JOIN, LEAVE and stream events rebuilds the topic's mesh")
+	}
+	if handler == 0 || handler == 2 || handler == 4 {
+		vpCover(w.inMeshNow(i) && !w.mesh[i], "a peer entered the mesh")
+	}
+	if handler == 1 || handler == 3 || handler == 5 {
+		vpCover(!w.inMeshNow(i) && w.mesh[i], "a peer left the mesh")
+	}
+}
+
+func vpH_C19_rebuild_graft()     { vpMeshRebuild(0, 3) }
+func vpH_C19_rebuild_prune()     { vpMeshRebuild(1, 3) }
+func vpH_C19_rebuild_join()      { vpMeshRebuild(2, 3) }
+func vpH_C19_rebuild_leave()     { vpMeshRebuild(3, 3) }
+func vpH_C19_rebuild_heartbeat() { vpMeshRebuild(4, 2) }
+func vpH_C19_rebuild_peerdown()  { vpMeshRebuild(5, 3) }
+
+// deliver_publish: every message accepted for delivery has exactly one DELIVER_MESSAGE event, every local publication
+// attempt exactly one PUBLISH_MESSAGE event.
+func vpH_C19_deliver_publish() {
+	for _, router := range []string{"gossipsub", "floodsub", "randomsub"} {
+		n := vpNewNode("self", vpNodeCfg{router: router, tracer: true})
+		m := vpMkMsg("self", "1", vpT0)
+		m.ReceivedFrom = "self"
+		err := n.ps.val.ValidateLocal(m)
+		vpAssert(err == nil && n.tr.count(pb.TraceEvent_PUBLISH_MESSAGE) == 1, "a local publication attempt has exactly one PUBLISH_MESSAGE event ("+router+")")
+		n.ps.publishMessage(m)
+		vpAssert(n.tr.count(pb.TraceEvent_DELIVER_MESSAGE) == 1, "an accepted message has exactly one DELIVER_MESSAGE event ("+router+")")
+		// a second publication attempt of the same ID is a duplicate: no second DELIVER
+		m2 := vpMkMsg("self", "1", vpT0)
+		m2.ReceivedFrom = "self"
+		err2 := n.ps.val.ValidateLocal(m2)
+		_, dupe := err2.(dupeErr)
+		vpAssert(dupe && n.tr.count(pb.TraceEvent_PUBLISH_MESSAGE) == 2 && n.tr.count(pb.TraceEvent_DELIVER_MESSAGE) == 1, "no message has more than one DELIVER_MESSAGE event ("+router+")")
+	}
+	vpCover(true, "ran")
+}
+
+// send_drop: every RPC accepted by a peer's outbound queue has a SEND_RPC event, every RPC it refuses a DROP_RPC event
+// (announce, the gossipsub send path, floodsub and randomsub publish), queue room symbolic.
+func vpH_C19_send_drop() {
+	for _, router := range []string{"gossipsub", "floodsub", "randomsub"} {
+		n := vpNewNode("self", vpNodeCfg{router: router, tracer: true, queue: 1})
+		proto := FloodSubID
+		if router == "gossipsub" {
+			proto = GossipSubID_v11
+		} else if router == "randomsub" {
+			proto = RandomSubID
+		}
+		q := n.vpAddPeer("p0", proto, true)
+		n.ps.topics[vpT0] = map[peer.ID]peerTopicState{"p0": {}}
+		if n.gs != nil {
+			n.gs.mesh[vpT0] = map[peer.ID]struct{}{"p0": {}}
+		}
+		full := vpBool("queue_full")
+		if full {
+			q.Push(&RPC{}, false)
+		}
+		n.tr.evts = nil
+		site := vpInt("site", 0, 1)
+		if site == 0 {
+			n.ps.announce(vpT0, true)
+		} else {
+			m := vpMkMsg("A", "1", vpT0)
+			m.ReceivedFrom = "self"
+			n.ps.rt.Publish(m)
+		}
+		sends, drops := n.tr.countPeer(pb.TraceEvent_SEND_RPC, "p0"), n.tr.countPeer(pb.TraceEvent_DROP_RPC, "p0")
+		if full {
+			vpAssert(sends == 0 && drops == 1, "an RPC refused by a full outbound queue has exactly one DROP_RPC event ("+router+")")
+		} else {
+			vpAssert(sends == 1 && drops == 0, "an RPC accepted by the outbound queue has exactly one SEND_RPC event ("+router+")")
+		}
+		vpDropPending() // (the announce retry goroutine is not part of this check)
 	}
 	vpCover(true, "ran")
 }
